@@ -278,7 +278,7 @@ theorem stepM_inv (m : Mesh) (hm : m.Inv) (op : Op) (recv ret : Mesh) (h : stepM
       · simp only [if_true] at h
         injection h with h; injection h with ha hb
         subst ha; subst hb
-        have hi : ({ m with region := r', n := rotN m.n i1 i2 k, subs := subs' } : Mesh).Inv :=
+        have hi : ({ m with region := r', n := rotN m.n i1 i2 k, bc := rotBc m.bc a1 a2 k, subs := subs' } : Mesh).Inv :=
           mesh_inv_of _ hri (by show (rotN m.n i1 i2 k).length = r'.ndim; rw [hrotlen, hrn]; exact hl) hrotpos
         exact ⟨hi, hi, ⟨i1, i2, hi1, hi2, rfl⟩⟩
 
